@@ -183,4 +183,35 @@ theorem reload_race_recovers (c : Cfg) (f1 f2 : FileSt) (props : KV)
   exact lookup_applyMerge_mem c1.m (readMap props) k v
     (keysNodup_readMap props (parseProps_ok_nodup f2.text props hp)) hkv (readMap_nonempty props k v hkv)
 
+/-! ### the file goes away and comes back -/
+
+/-- after a reload that found the file missing (reset to the defaults, remembered time := 0) a
+    file that appears is loaded whatever its stamp — in particular the stamp it had before it went
+    away (rename back, cp -p, tar x, rsync -t) -/
+theorem restored_file_loaded (c : Cfg) (f : FileSt) (props : KV)
+    (h1 : c.last.1 ≠ -1) (h0 : c.last.1 ≠ 0) (hf : f.mtimeNs ≠ 0) (hp : parseProps f.text = .ok props) :
+    let c1 := (reload verFull c none).1
+    (reload verFull c1 (some f)).2 = .loaded ∧ Reflects (reload verFull c1 (some f)).1 f.text := by
+  intro c1
+  have hl : c1.last.1 = 0 := by
+    show (reload verFull c none).1.last.1 = 0
+    unfold reload
+    simp [h1, h0]
+  have hne : c1.last ≠ verFull f := by
+    intro e
+    have : c1.last.1 = f.mtimeNs := by rw [e]; rfl
+    rw [hl] at this
+    exact hf this.symm
+  obtain ⟨r1, _, _, r4⟩ := reload_loaded verFull c1 f props hne hp
+  refine ⟨r1, ?_⟩
+  intro props' hp' k v hkv
+  rw [hp] at hp'
+  cases hp'
+  rw [r4]
+  exact lookup_applyMerge_mem c1.m (readMap props) k v
+    (keysNodup_readMap props (parseProps_ok_nodup f.text props hp)) hkv (readMap_nonempty props k v hkv)
+
+/-- the variant that marks "file missing" with a separate flag and keeps the remembered stamp -/
+def resetKeepingStamp (c : Cfg) : Cfg := { c with m := (reload verFull { c with last := (1, 0) } none).1.m }
+
 end Conf
